@@ -32,6 +32,9 @@ struct S_ZTSN3ipr4impl12_GLOBAL__N_114std_identifierE* @{word_if_known}(sv_t w) 
 '''
 
 
+CLAUSES['handler_ellipsis'] = CLAUSES['handler']; CLAUSES['handler_builtin'] = CLAUSES['handler']
+
+
 def build(tier, seed):
     if '-I' + os.path.join(VERIF, 'drivers') not in ipv.CLANG_ARGS:
         ipv.CLANG_ARGS.append('-I' + os.path.join(VERIF, 'drivers'))
